@@ -92,6 +92,8 @@ where
     };
     let slack = T::from_f64(16.0).unwrap() * T::epsilon() * (eps + scale);
     let (mut wrong, mut at_eps) = (false, false);
+    // relations with d == eps exactly (query != point): how many exist, how many were dropped
+    let (mut n_boundary, mut n_boundary_missed) = (0usize, 0usize);
     for q in probes {
         let got: Vec<usize> = match guard(|| tree.find_radius(q, eps).map(|v| v.iter().map(|x| x.0).collect::<Vec<usize>>())) {
             Ok(Ok(v)) => v,
@@ -110,6 +112,12 @@ where
             if seen[j] > 1 || (seen[j] == 1 && !inside) {
                 wrong = true;
             }
+            if d == eps {
+                n_boundary += 1;
+                if seen[j] == 0 {
+                    n_boundary_missed += 1;
+                }
+            }
             if seen[j] == 0 && inside {
                 if d >= eps - slack {
                     at_eps = true;
@@ -121,6 +129,9 @@ where
     }
     if wrong {
         Some("covertree/radius-query-wrong")
+    } else if at_eps && n_boundary >= 6 && n_boundary_missed == n_boundary {
+        // not the occasional rounding loss: the closed ball is treated as open
+        Some("covertree/radius-query-drops-every-point-at-eps")
     } else if at_eps {
         Some("covertree/radius-query-drops-point-at-eps")
     } else {
@@ -669,6 +680,9 @@ where
 
 // ------------------------------------------------------------------------------------------ generators
 
+/// (points, kind, constructed (eps, min_samples) if the generator aims at a specific structure)
+type Gen = (Vec<Vec<f64>>, String, Option<(f64, usize)>);
+
 fn draw_n(rng: &mut Rng, max: usize) -> usize {
     let r = rng.f();
     let hi = if r < 0.3 {
@@ -681,7 +695,7 @@ fn draw_n(rng: &mut Rng, max: usize) -> usize {
     rng.us(1, hi)
 }
 
-fn gen_blobs(rng: &mut Rng) -> (Vec<Vec<f64>>, String) {
+fn gen_blobs(rng: &mut Rng) -> Gen {
     let d = rng.us(1, 4);
     let n = draw_n(rng, 150);
     let nb = rng.us(1, 5);
@@ -713,10 +727,10 @@ fn gen_blobs(rng: &mut Rng) -> (Vec<Vec<f64>>, String) {
         }
         kind.push_str("+duplicates");
     }
-    (pts, kind)
+    (pts, kind, None)
 }
 
-fn gen_chains(rng: &mut Rng) -> (Vec<Vec<f64>>, String) {
+fn gen_chains(rng: &mut Rng) -> Gen {
     let d = rng.us(1, 4);
     let n = draw_n(rng, 150);
     let step = match rng.below(6) {
@@ -797,35 +811,78 @@ fn gen_chains(rng: &mut Rng) -> (Vec<Vec<f64>>, String) {
         rng.shuffle(&mut pts);
         kind.push_str("+shuffled");
     }
-    (pts, kind)
+    (pts, kind, None)
 }
 
-fn gen_lattice(rng: &mut Rng) -> (Vec<Vec<f64>>, String) {
+/// two chains (spacing 0.45 eps, min_samples 4) whose end points are core and share one non-core point
+/// lying within eps of both: a border point between two clusters; row order shuffled
+fn gen_shared_border(rng: &mut Rng) -> Gen {
+    let d = rng.us(1, 3);
+    let eps = match rng.below(5) {
+        0 => 1.0,
+        1 => 0.5,
+        2 => 0.1,
+        3 => 0.3,
+        _ => rng.logu(0.01, 10.0),
+    };
+    let s = 0.45 * eps;
+    let axis = rng.below(d);
+    let off: Vec<f64> = (0..d).map(|_| if rng.bool(0.5) { 0.0 } else { rng.uni(-3.0, 3.0) }).collect();
+    let at = |x: f64| -> Vec<f64> { (0..d).map(|i| if i == axis { off[i] + x } else { off[i] }).collect() };
+    let mut pts: Vec<Vec<f64>> = vec![at(0.0)];
+    let mut exact = false;
+    for side in [-1.0f64, 1.0] {
+        let db = if rng.bool(0.4) {
+            exact = true;
+            eps
+        } else {
+            eps * rng.uni(0.56, 0.999)
+        };
+        for j in 0..rng.us(3, 6) {
+            pts.push(at(side * (db + j as f64 * s)));
+        }
+    }
+    let mut kind = format!("shared-border(eps={}{})", eps, if exact { ",arm at exactly eps" } else { "" });
+    if rng.bool(0.2) {
+        pts.push(at(0.0));
+        kind.push_str("+duplicated-border");
+    }
+    for _ in 0..rng.below(3) {
+        pts.push(at(rng.uni(5.0, 9.0) * eps * if rng.bool(0.5) { 1.0 } else { -1.0 } * 3.0));
+    }
+    if rng.bool(0.75) {
+        rng.shuffle(&mut pts);
+        kind.push_str("+shuffled");
+    }
+    (pts, kind, Some((eps, 4)))
+}
+
+fn gen_lattice(rng: &mut Rng) -> Gen {
     let d = rng.us(1, 4);
     let l = rng.us(1, 5) as i64;
     let n = draw_n(rng, 150);
     let scale = *rng.pick(&[1.0, 1.0, 1.0, 0.5, 0.1, 0.3, 3.0]);
     let pts: Vec<Vec<f64>> = (0..n).map(|_| (0..d).map(|_| rng.int(0, l) as f64 * scale).collect()).collect();
-    (pts, format!("lattice(0..{},x{})", l, scale))
+    (pts, format!("lattice(0..{},x{})", l, scale), None)
 }
 
-fn gen_uniform(rng: &mut Rng) -> (Vec<Vec<f64>>, String) {
+fn gen_uniform(rng: &mut Rng) -> Gen {
     let d = rng.us(1, 4);
     let n = draw_n(rng, 150);
     let scale = *rng.pick(&[1.0, 1.0, 10.0, 0.01, 100.0]);
     let pts: Vec<Vec<f64>> = (0..n).map(|_| (0..d).map(|_| rng.f() * scale).collect()).collect();
-    (pts, format!("uniform(x{})", scale))
+    (pts, format!("uniform(x{})", scale), None)
 }
 
-fn gen_small(rng: &mut Rng) -> (Vec<Vec<f64>>, String) {
+fn gen_small(rng: &mut Rng) -> Gen {
     let d = rng.us(1, 3);
     let n = if rng.bool(0.2) { 1 } else { rng.us(2, 6) };
     if rng.bool(0.3) {
         let p: Vec<f64> = (0..d).map(|_| *rng.pick(&[0.0, 1.0, -2.5, 0.1])).collect();
-        return (vec![p; n], "small:all-identical".to_string());
+        return (vec![p; n], "small:all-identical".to_string(), None);
     }
     let pts: Vec<Vec<f64>> = (0..n).map(|_| (0..d).map(|_| rng.int(0, 2) as f64).collect()).collect();
-    (pts, "small:lattice(0..2)".to_string())
+    (pts, "small:lattice(0..2)".to_string(), None)
 }
 
 /// eps over the whole range, both generic and exactly equal to occurring distances
@@ -919,7 +976,7 @@ fn draw_queries<T: RealNumber>(rng: &mut Rng, pts: &[Vec<T>], eps: T) -> Vec<Vec
     q
 }
 
-fn run_random_t<T, D>(c: &mut Case, pts64: Vec<Vec<f64>>, kind: String, metric: D, mname: &'static str)
+fn run_random_t<T, D>(c: &mut Case, pts64: Vec<Vec<f64>>, kind: String, force: Option<(f64, usize)>, metric: D, mname: &'static str)
 where
     T: RealNumber + Serialize,
     D: Distance<Vec<T>, T> + Serialize + Clone,
@@ -927,10 +984,22 @@ where
     let pts: Vec<Vec<T>> = pts64.iter().map(|p| tv::<T>(p)).collect();
     let n = pts.len();
     let d = pts[0].len();
-    let ms = if c.rng.bool(0.85) { c.rng.us(1, 5) } else { c.rng.us(6, 8) };
+    let ms = match force {
+        Some((_, ms)) => ms,
+        None => {
+            if c.rng.bool(0.85) {
+                c.rng.us(1, 5)
+            } else {
+                c.rng.us(6, 8)
+            }
+        }
+    };
     // distances for the choice of eps (the same values the oracle uses later)
     let dm: Vec<Vec<T>> = (0..n).map(|i| (0..n).map(|j| metric.distance(&pts[i], &pts[j])).collect()).collect();
-    let (eps, ekind) = draw_eps::<T>(&mut c.rng, &dm, ms);
+    let (eps, ekind) = match force {
+        Some((e, _)) if t::<T>(e) > T::zero() => (t::<T>(e), "constructed"),
+        _ => draw_eps::<T>(&mut c.rng, &dm, ms),
+    };
     let queries = draw_queries::<T>(&mut c.rng, &pts, eps);
     c.describe(json!({
         "width": width::<T>(), "metric": mname, "kind": kind, "eps": f(eps), "eps_kind": ekind, "min_samples": ms, "n": n, "dims": d,
@@ -968,15 +1037,15 @@ where
     }
 }
 
-fn run_random(c: &mut Case, g: fn(&mut Rng) -> (Vec<Vec<f64>>, String)) {
-    let (pts, kind) = g(&mut c.rng);
+fn run_random(c: &mut Case, g: fn(&mut Rng) -> Gen) {
+    let (pts, kind, force) = g(&mut c.rng);
     let f32w = c.rng.bool(0.2);
     let manh = c.rng.bool(0.4);
     match (f32w, manh) {
-        (false, false) => run_random_t::<f64, _>(c, pts, kind, Distances::euclidian(), "euclidean"),
-        (false, true) => run_random_t::<f64, _>(c, pts, kind, Distances::manhattan(), "manhattan"),
-        (true, false) => run_random_t::<f32, _>(c, pts, kind, Distances::euclidian(), "euclidean"),
-        (true, true) => run_random_t::<f32, _>(c, pts, kind, Distances::manhattan(), "manhattan"),
+        (false, false) => run_random_t::<f64, _>(c, pts, kind, force, Distances::euclidian(), "euclidean"),
+        (false, true) => run_random_t::<f64, _>(c, pts, kind, force, Distances::manhattan(), "manhattan"),
+        (true, false) => run_random_t::<f32, _>(c, pts, kind, force, Distances::euclidian(), "euclidean"),
+        (true, true) => run_random_t::<f32, _>(c, pts, kind, force, Distances::manhattan(), "manhattan"),
     }
 }
 
@@ -994,6 +1063,9 @@ fn uniform(c: &mut Case) {
 }
 fn small(c: &mut Case) {
     run_random(c, gen_small)
+}
+fn shared_border(c: &mut Case) {
+    run_random(c, gen_shared_border)
 }
 
 // ------------------------------------------------------------------------------------------ exhaustive
@@ -1119,13 +1191,15 @@ fn lattice2d_rep(c: &mut Case) {
 fn main() {
     runner::main(Spec {
         property: "C13",
-        rule: "random families (blobs, chains, lattice, uniform, small): 1..150 points in 1..4 dimensions (Gaussian blobs with background noise, equispaced / jittered / branching chains with gaps and end blobs, integer lattices with duplicates, uniform clouds, tiny sets incl. a single point and identical points), f64 (80 %) or f32, Euclidean or Manhattan metric, min_samples 1..8, eps drawn over the whole range (below the smallest distance ... above the largest) both generic and exactly equal to an occurring distance; 4..14 predict queries (training rows, perturbed rows, rows at distance eps, far rows, box-uniform rows). Exhaustive families: lattice1d = every sequence of 1..6 (quick) / 1..7 (thorough) points of {0,1,2,3}; lattice2d = every ordered selection without repetition of 1..5 / 1..7 points of the 3x3 lattice; lattice2d_rep = every sequence with repetition of 1..4 / 1..5 points of the 3x3 lattice; each with eps in {1, sqrt 2, 2} x min_samples 1..4 x both metrics x both backends and 9 / 13 fixed predict queries. Every fit is run with both backends. A case is non-trivial when, for at least one checked configuration, the reference labelling has at least one cluster and additionally a second cluster, a border point or a noise point; distinct = distinct hash of (points, eps, min_samples, metric, width) resp. of the enumerated point sequence",
+        rule: "random families (blobs, chains, lattice, uniform, small, shared_border): 1..150 points in 1..4 dimensions (Gaussian blobs with background noise, equispaced / jittered / branching chains with gaps and end blobs, integer lattices with duplicates, uniform clouds, tiny sets incl. a single point and identical points, two chains sharing a non-core point within eps of a core point of each with constructed eps and min_samples = 4), f64 (80 %) or f32, Euclidean or Manhattan metric, min_samples 1..8, eps drawn over the whole range (below the smallest distance ... above the largest) both generic and exactly equal to an occurring distance; 4..14 predict queries (training rows, perturbed rows, rows at distance eps, far rows, box-uniform rows). Exhaustive families: lattice1d = every sequence of 1..6 (quick) / 1..7 (thorough) points of {0,1,2,3}; lattice2d = every ordered selection without repetition of 1..5 / 1..7 points of the 3x3 lattice; lattice2d_rep = every sequence with repetition of 1..4 / 1..5 points of the 3x3 lattice; each with eps in {1, sqrt 2, 2} x min_samples 1..4 x both metrics x both backends and 9 / 13 fixed predict queries. Every fit is run with both backends. A case is non-trivial when, for at least one checked configuration, the reference labelling has at least one cluster and additionally a second cluster, a border point or a noise point; distinct = distinct hash of (points, eps, min_samples, metric, width) resp. of the enumerated point sequence",
         assumptions: vec![
             "neighbourhoods of the oracle are computed with the library's own metric object in the model's float type (Distances::euclidian()/manhattan()), so d == eps is decided on the identical floating-point value; both metrics are exactly symmetric in IEEE arithmetic (verified per case, otherwise inconclusive)",
             "cluster_labels / num_classes are read from serde_json::to_value(&model)",
             "inputs are finite; eps > 0 finite; min_samples >= 1 (rejection of invalid parameters is not part of the statement)",
             "ties in the predict vote (also between a cluster and the noise bucket) accept every tied label; which adjacent cluster a border point joins is free; the numbering of clusters is free as long as it is 0..c-1, except that core labels must coincide between the two backends as the statement demands",
             "a cover-tree construction panic on a single point / on identical points is reported under its own signatures covertree/n=1 and covertree/all-identical (defect of the neighbour-search structure, property C04)",
+            "when a check fails for the cover-tree backend the monitor asks the library's CoverTree::find_radius directly and, if its answer differs from brute force, files the violation under the root-cause signature covertree/radius-query-drops-point-at-eps (only points at distance eps up to rounding are lost), covertree/radius-query-drops-every-point-at-eps or covertree/radius-query-wrong instead of covertree/<metric>; this only selects the signature, never the verdict",
+            "an (oracle, signature) class is reported at most once per case (further failures of the same class in the same case are only counted)",
         ],
         families: vec![
             Family::new("blobs", 2500, 40000, blobs),
@@ -1133,6 +1207,7 @@ fn main() {
             Family::new("lattice", 2500, 40000, lattice),
             Family::new("uniform", 1500, 20000, uniform),
             Family::new("small", 1000, 10000, small),
+            Family::new("shared_border", 1000, 10000, shared_border),
             Family::new("lattice1d", 5460, 21844, lattice1d).exhaustive(true, true),
             Family::new("lattice2d", 18729, 260649, lattice2d).exhaustive(true, true),
             Family::new("lattice2d_rep", 7380, 66429, lattice2d_rep).exhaustive(true, true),
